@@ -45,6 +45,7 @@ func runC07(c *core.Ctx) *core.Outcome {
 	cfg := genCfg(t)
 	cfg.Backend = t.Weighted(3, 2, 1, 2)
 	cfg.SetSession = t.Chance(1, 2)
+	cfg.ResetOnEmpty = t.Chance(1, 6)
 	var a *app.App
 	exs := examples.All()
 	if len(exs) > 0 && t.Chance(1, 6) {
@@ -98,6 +99,10 @@ func runC07(c *core.Ctx) *core.Outcome {
 				cur = p[len(p)-1]
 			}
 			in = genInput(t, a, cur, 2)
+			if cfg.ResetOnEmpty && t.Chance(1, 4) {
+				in = []byte{}
+				o.Probes["empty_input_with_reset_on_empty"]++
+			}
 		}
 		mFresh := t.Chance(1, 2)
 		t.End()
